@@ -9,6 +9,7 @@ import sys
 
 LEVELS = {"trace", "debug", "info", "notice", "warning", "warn", "error", "critical", "exception"}
 STRIPPED: dict[str, int] = {}
+NOSTRIP = set(filter(None, __import__("os").environ.get("VERIF_NOSTRIP", "").split(",")))
 
 
 class _Strip(ast.NodeTransformer):
@@ -47,6 +48,8 @@ class _Finder(importlib.abc.MetaPathFinder):
     def find_spec(self, name, path, target=None):
         if not (name == "gallia" or name.startswith("gallia.")):
             return None
+        if name in NOSTRIP:
+            return None  # formatting inside log calls is part of the subject for this module (e.g. C15: failing hooks)
         spec = importlib.machinery.PathFinder.find_spec(name, path)
         if spec and isinstance(spec.loader, importlib.machinery.SourceFileLoader):
             spec.loader = _Loader(spec.loader.name, spec.loader.path)
